@@ -74,12 +74,25 @@ def opBytes (o : Op) : List Nat :=
   | some (c, _) => if c ≥ 256 then [c / 256, c % 256] else [c]
   | none => []
 
-/-- tokens of the path/hint core of the charstring language (no arithmetic, no subroutines) -/
+/-- The value-dependent operators, applied to KNOWN operands: the operands that decide whether the
+operator is legal (divisor, radicand, index, roll count and amount, transient-array index) are integer
+literals written directly in front of the operator. -/
+inductive LitOp
+  | div (b : Int)          -- "… a  b div":  literal divisor b ≠ 0
+  | sqrt (v : Int)         -- "v sqrt":      literal v ≥ 0
+  | index (i : Int)        -- "… i index":   literal index (negative = top element)
+  | roll (n j : Int)       -- "… n j roll":  literal count 1 ≤ n ≤ depth and amount j
+  | put (i : Int)          -- "… a  i put":  literal transient-array index 0 ≤ i < 32
+  | get (i : Int)          -- "i get":       literal index that was `put` before
+deriving Repr, DecidableEq
+
+/-- tokens of the charstring language (subroutine calls: `PTok`) -/
 inductive Tok
   | int (v : Int)
   | fixed (u : Int)
   | op (o : Op)
   | mask (cntr : Bool) (bytes : List Nat)
+  | lit (k : LitOp)
 deriving Repr, DecidableEq
 
 abbrev Program := List Tok
@@ -89,6 +102,12 @@ def encodeTok : Tok → List Nat
   | .fixed u => encodeFixed u
   | .op o => opBytes o
   | .mask c bs => opBytes (if c then .cntrmask else .hintmask) ++ bs
+  | .lit (.div b) => encodeInt b ++ opBytes .div
+  | .lit (.sqrt v) => encodeInt v ++ opBytes .sqrt
+  | .lit (.index i) => encodeInt i ++ opBytes .index
+  | .lit (.roll n j) => encodeInt n ++ encodeInt j ++ opBytes .roll
+  | .lit (.put i) => encodeInt i ++ opBytes .put
+  | .lit (.get i) => encodeInt i ++ opBytes .get
 
 def encode (p : Program) : List Nat := p.flatMap encodeTok
 
@@ -100,6 +119,8 @@ structure Abs where
   moved : Bool := false
   nStems : Nat := 0
   ended : Bool := false
+  /-- transient-array indices written by an earlier `put` -/
+  written : List Nat := []
 deriving Repr, DecidableEq
 
 /-- operand count left after the optional width: the width may only be the extra first operand
@@ -159,6 +180,25 @@ def wfTok (a : Abs) : Tok → Option Abs
           some { a with depth := 0, widthDone := true, stage := 2, nStems := stems }
         else none
       | none => none
+  | .lit k =>
+    if a.ended then none
+    else
+      let small (v : Int) : Bool := -32000 ≤ v && v ≤ 32000
+      match k with
+      | .div b =>
+        if small b && b != 0 && 1 ≤ a.depth && a.depth + 1 ≤ Gen.t2maxStack then some a else none
+      | .sqrt v =>
+        if 0 ≤ v && v ≤ 32000 && a.depth + 1 ≤ Gen.t2maxStack then some { a with depth := a.depth + 1 } else none
+      | .index i =>
+        if small i && a.depth + 1 ≤ Gen.t2maxStack && i.toNat + 1 ≤ a.depth then some { a with depth := a.depth + 1 } else none
+      | .roll n j =>
+        if small n && small j && 1 ≤ n && n.toNat ≤ a.depth && a.depth + 2 ≤ Gen.t2maxStack then some a else none
+      | .put i =>
+        if 0 ≤ i && i < 32 && 1 ≤ a.depth && a.depth + 1 ≤ Gen.t2maxStack then
+          some { a with depth := a.depth - 1, written := i.toNat :: a.written } else none
+      | .get i =>
+        if 0 ≤ i && i < 32 && a.written.contains i.toNat && a.depth + 1 ≤ Gen.t2maxStack then
+          some { a with depth := a.depth + 1 } else none
 
 def wfRun : Abs → Program → Option Abs
   | a, [] => some a
@@ -182,6 +222,12 @@ range outside which the Go decoder clamps deltas: finding C05-clamp); `flex1`, `
 one delta as a sum of up to five operands, which can leave ±32000: C05-clamp again). -/
 def agreesTok : Tok → Bool
   | .op o => !(o == .mul || o == .add || o == .sub || o == .flex1 || o == .hflex1)
+  | .lit (.index _) => true
+  | .lit (.roll _ _) => true                -- (count 0, which TN5177 permits and the Go decoder rejects, is outside WF)
+  | .lit (.put _) => true
+  | .lit (.get _) => false                  -- progress only (the bound on the stored value is not tracked)
+  | .lit (.div _) => true                   -- integer divisor, |b| ≥ 1: the quotient stays within ±32000
+  | .lit (.sqrt v) => decide (isqrt (v * one * one).toNat ≤ 32000 * 65536)  -- the literal's root is within ±32000 (always true for 0 ≤ v ≤ 32000; checked, not proved)
   | _ => true
 
 /-- decidable: every token agrees -/
